@@ -1207,3 +1207,56 @@ print(json.dumps(out))
     bad = {nm: c for nm, c in classes.items() if len(c) > 1}
     (rep.ob("different sampled expressions get different names", "proved", "runtime-contract", "bounded") if not bad else
      rep.violation("names:collision", f"different expressions share a name: {list(bad.values())[:2]}", {}))
+
+
+def c03_table_predicates(rep, tier, seed):
+    """The table classifiers look at EVERY entry: a table that deviates in a single entry (any permutation, entity, point, dof)
+    from the permutation-/point-/entity-independent pattern is not classified as such; tables that follow the pattern are.
+    Exhaustive over all single-entry positions of a [3 perms][3 entities][3 points][2 dofs] table, on the real functions."""
+    import itertools
+
+    import numpy as np
+
+    import ffcx.ir.elementtables as ET
+
+    shape = (3, 3, 3, 2)
+    rng = np.random.default_rng(7)
+    base_perm = np.broadcast_to(rng.random((1,) + shape[1:]) + 0.5, shape).copy()  # same for every permutation
+    base_pw = np.broadcast_to(rng.random((shape[0], shape[1], 1, shape[3])) + 0.5, shape).copy()  # same for every point
+    base_un = np.broadcast_to(rng.random((shape[0], 1, shape[2], shape[3])) + 0.5, shape).copy()  # same for every entity
+    cases = [("is_permuted_table", ET.is_permuted_table, base_perm, False, lambda pos: pos[0] >= 1),
+             ("is_piecewise_table", ET.is_piecewise_table, base_pw, True, lambda pos: pos[0] == 0 and pos[2] >= 1),
+             ("is_uniform_table", ET.is_uniform_table, base_un, True, lambda pos: pos[0] == 0 and pos[1] >= 1)]
+    for name, f, base, base_value, relevant in cases:
+        ok0 = bool(f(base)) == base_value
+        nm = f"{name}: a table following the pattern is classified {base_value}"
+        (rep.ob(nm, "proved", "exhaustive-finite", "exhaustive") if ok0 else rep.violation(f"table-predicate:{name}:base", nm + " fails", {}))
+        missed = []
+        n = 0
+        for pos in itertools.product(*[range(s) for s in shape]):
+            if not relevant(pos):
+                continue
+            t = base.copy()
+            t[pos] += 0.25
+            n += 1
+            if bool(f(t)) == base_value:
+                missed.append(pos)
+        nm = f"{name}: a deviation in any single entry ({n} positions) changes the classification"
+        if not missed:
+            rep.ob(nm, "proved", "exhaustive-finite", "exhaustive")
+        else:
+            rep.violation(f"table-predicate:{name}:entry", nm + f" fails for positions [perm][entity][point][dof] = {missed[:4]}",
+                          dict(obligation=nm, missed=[list(p) for p in missed[:10]],
+                               how_to_replay=f"ffcx.ir.elementtables.{name} on a table that differs from the pattern only at that position"))
+    z = np.zeros(shape)
+    o = np.ones(shape)
+    for name, f, base in (("is_zeros_table", ET.is_zeros_table, z), ("is_ones_table", ET.is_ones_table, o)):
+        missed = []
+        for pos in itertools.product(*[range(s) for s in shape]):
+            t = base.copy()
+            t[pos] += 0.25
+            if f(t):
+                missed.append(pos)
+        nm = f"{name}: true on the constant table, false after changing any single entry"
+        (rep.ob(nm, "proved", "exhaustive-finite", "exhaustive") if f(base) and not missed else
+         rep.violation(f"table-predicate:{name}", nm + f" fails {missed[:3]}", dict(missed=[list(p) for p in missed[:10]])))
